@@ -450,10 +450,99 @@ def mpbx_post(self, x, n, exact, r):
     out.update({
         'wrap_member': implies(arm_wrap, fl_finite(r) and (r._real._c == 0 or r._real._exp == self.nmin + 1)),
         'wrap_range': implies(arm_wrap, lo <= W and W <= hi),
-        'wrap_congruent': implies(arm_wrap, fmod(W - ordR, hi - lo + 1) == 0),
+        'wrap_value': implies(arm_wrap, W == lo + fmod(ordR - lo, hi - lo + 1)) if True else True,
     })
     return out
 
 
 def mpbx_raises(self, x, n, exact):
     return bounded_raises(self, x, exact, mpx_R(self, x, n), True, True)
+
+
+# ---------------------------------------------------------------------------
+# ExpContext: members are NaN and 2^k, emin <= k <= emax (one digit of precision); no zero, no negatives, no infinity
+
+@invariant('fpy2.number.context.exponential:ExpContext')
+def inv_ExpContext(k):
+    # the constructor rejects the other overflow modes; emin = eoffset - (2^(nbits-1) - 1) <= emax = eoffset + 2^(nbits-1) - 1
+    return (k.overflow.name == 'OVERFLOW' or k.overflow.name == 'SATURATE') and k._fmt._emin <= k._fmt._emax
+
+
+def exp_R(self, x, n):
+    return rnd_at(op_real(x), 1, round_nstar(op_real(x), 1, n), self.rm)
+
+
+def exp_post(self, x, n, exact, r):
+    nan = op_nan(x)
+    inf = op_inf(x)
+    xr = op_real(x)
+    fin = not nan and not inf
+    R = exp_R(self, x, n)
+    pos = fin and xr._c != 0 and not xr._s and R[1] != 0
+    e = R[0] + bl(R[1]) - 1
+    emin = self._fmt._emin
+    emax = self._fmt._emax
+    under = pos and e < emin
+    over = pos and e > emax
+    ok = pos and not under and not over
+    nm = self.rm.name
+    om = self.overflow.name
+    toinf = ovf_to_inf(self.rm, False, False, True)
+    isnan = r._isnan and not r._isinf
+    return {
+        'ctx': same_obj(r._ctx, self),
+        # K5: NaN is a member; infinity is not (substitute or NaN); zero and negative values have no neighbour: NaN
+        'nan': implies(nan, isnan),
+        'inf_subst': (same_real(r._real, self.inf_value._real) and r._isnan == self.inf_value._isnan
+                      and r._isinf == self.inf_value._isinf) if (inf and self.inf_value is not None) else True,
+        'inf_nan': implies(inf, isnan) if self.inf_value is None else True,
+        'nonpositive': implies(fin and not pos, isnan),
+        # K2/K3 within the exponent range
+        'finite': implies(ok, fl_finite(r)),
+        'sign': implies(ok, not r._real._s),
+        'exp': implies(ok, r._real._exp == R[0]),
+        'c': implies(ok, r._real._c == R[1]),
+        'inexact': implies(ok, r._real._flags.inexact == R[2]),
+        'no_overflow': implies(ok, not r._real._flags.overflow),
+        # K1 member: a power of two within [emin, emax]
+        'member': implies(fin and fl_finite(r), r._real._c == 1 and not r._real._s
+                          and emin <= r._real._exp and r._real._exp <= emax),
+        'never_inf': implies(fin, not r._isinf),
+        # K4 above the largest value
+        'over_max': implies(over and (om == 'SATURATE' or not toinf), fl_finite(r) and r._real._exp == emax and r._real._c == 1),
+        'over_inf': implies(over and om == 'OVERFLOW' and toinf, isnan),
+        'over_flag_overflow': implies(over, r._real._flags.overflow),
+        'over_flag_inexact': implies(over, r._real._flags.inexact),
+        # below the smallest value: the two neighbours are "zero" (not a member: NaN) and minval
+        'under_neighbour': implies(under, isnan or (fl_finite(r) and r._real._exp == emin and r._real._c == 1)),
+        'under_sat': implies(under and om == 'SATURATE', fl_finite(r)),
+        'under_towards_zero': implies(under and om == 'OVERFLOW' and (nm == 'RTZ' or nm == 'RTN'), isnan),
+        'under_away': implies(under and om == 'OVERFLOW' and (nm == 'RAZ' or nm == 'RTP'), fl_finite(r)),
+        'under_flag_overflow': implies(under, r._real._flags.overflow),
+        'under_flag_inexact': implies(under, r._real._flags.inexact),
+    }
+
+
+def exp_raises(self, x, n, exact):
+    xr = op_real(x)
+    R = exp_R(self, x, n)
+    pos = op_nonzero(x) and not xr._s and R[1] != 0
+    e = R[0] + bl(R[1]) - 1
+    return {
+        'ValueError': exact and ((op_nonzero(x) and R[2])
+                                 or (pos and (e < self._fmt._emin or e > self._fmt._emax))),
+    }
+
+
+# ---------------------------------------------------------------------------
+# RealContext: every real, infinity and NaN is a member; rounding is the identity
+
+def real_post(self, x, r):
+    xr = op_real(x)
+    return {
+        'ctx': same_obj(r._ctx, self),
+        'nan': r._isnan == op_nan(x),
+        'inf': r._isinf == op_inf(x),
+        'value': same_real(r._real, xr),
+        'flags': r._real._flags._flags == xr._flags._flags,
+    }
